@@ -4,6 +4,7 @@ package c17
 
 import (
 	"fmt"
+	"go/token"
 	"go/types"
 	"strings"
 
@@ -506,4 +507,115 @@ func (k *checker) mentionsApp(s symID, seen map[symID]bool, ops ...string) bool 
 		}
 	}
 	return false
+}
+
+// ---------------------------------------------------------------- FromTheta (axis–angle)
+
+// fromThetaLaw: FromTheta(θ, a) = (w = cos(θ/2), v = sin(θ/2)·a/√(a·a)) as a rational identity, with
+// sin(θ/2), cos(θ/2) uninterpreted (the engine's math.Sin / math.Cos applications) and √(a·a) the
+// canonical sqrt symbol; and |FromTheta(θ,a)|² = 1 modulo sin² + cos² = 1. No trigonometry is needed:
+// the clause is about how the axis is normalised and where sin and cos go. Paths guarded by a
+// degenerate axis (a·a ≤ 0) are not judged.
+func (k *checker) fromThetaLaw(vo *vecOps, qo *quatOps) {
+	if vo == nil || qo == nil {
+		return
+	}
+	fn := k.fn("math/quaternion", "FromTheta")
+	if fn == nil {
+		return
+	}
+	e := k.e
+	P := k.c.P
+	name := P.FuncName(fn)
+	sig := fn.Signature.Params()
+	if sig.Len() != 2 || kindOf(sig.At(0).Type()) != kNum || !isVectorStruct(sig.At(1).Type()) {
+		k.undecided("SYM-ALG", name, fn.Pos(), "FromTheta no longer has the shape (angle, axis vector)")
+		return
+	}
+	theta := e.Sym("theta", sig.At(0).Type()).(Scalar)
+	axis := e.Sym("axis", vo.typ)
+	ac, _ := vo.comps(axis)
+	aa := vo.dot(ac, ac)
+	e.AssumePositive(aa)
+	half := e.Mul(theta, Scalar{v: rfPoly(PolyConst(ratHalf()))})
+	s := e.app("math.Sin", []Scalar{half})
+	c := e.app("math.Cos", []Scalar{half})
+	norm := e.Sqrt(aa)
+	var wantV [3]Scalar
+	for i := range wantV {
+		q, _ := e.Div(e.Mul(ac[i], s), norm)
+		wantV[i] = q
+	}
+	want := qo.mk(vo, wantV, c)
+	res := e.Run(fn, []Val{theta, axis})
+	if prob := res.Problem(); prob != "" {
+		k.undecided("SYM-ALG", name, fn.Pos(), prob)
+		return
+	}
+	// conditions that can only hold for a degenerate axis (a·a = 0): X == 0, X <= 0, X < 0 for X = a·a, √(a·a)
+	degenerateKeys := map[string]bool{}
+	for _, x := range []Scalar{aa, norm} {
+		for _, op := range []token.Token{token.EQL, token.LEQ, token.LSS} {
+			if b := e.CmpAtom(op, x, e.num(0)); !b.isConst {
+				degenerateKeys[b.atom.key] = true
+			}
+		}
+	}
+	zeroAt := e.CmpAtom(token.EQL, aa, e.num(0))
+	judged, skipped := 0, 0
+	okAll := true
+	for _, p := range res.Returns() {
+		degenerate := false
+		for _, cnd := range p.Conds {
+			if cnd.p != nil && e.positiveDen(cnd.p.Neg()) {
+				degenerate = true // the path assumes a·a ≤ 0 (or < 0)
+			}
+			if (!zeroAt.isConst && cnd.key == zeroAt.atom.key) || degenerateKeys[cnd.key] {
+				degenerate = true
+			}
+		}
+		if degenerate {
+			skipped++
+			continue
+		}
+		if len(p.Ret) != 1 {
+			k.undecided("SYM-ALG", name, fn.Pos(), "a path does not return one quaternion")
+			return
+		}
+		judged++
+		law := "FromTheta(θ,a) = (cos(θ/2), sin(θ/2)·a/√(a·a)) (axis–angle form; sin, cos uninterpreted)"
+		if !k.decide(law, name, fn.Pos(), p.Ret[0], want, true, fmt.Sprintf("path guards: %s; %d degenerate-axis path(s) not judged", condsString(p.Conds), skipped)) {
+			okAll = false
+			continue
+		}
+		// unit norm modulo sin² + cos² = 1
+		gv, gw, ok := qo.parts(vo, p.Ret[0])
+		if !ok {
+			continue
+		}
+		n2 := e.Add(vo.dot(gv, gv), e.Mul(gw, gw))
+		sid, ok1 := singleSym(s.v)
+		if !ok1 {
+			continue
+		}
+		_, had := e.ST.square[sid]
+		one := e.num(1)
+		if !had {
+			e.ST.square[sid] = e.Sub(one, e.Mul(c, c)).v.n
+		}
+		num := n2.v.n.reduceSquares(e.ST)
+		den := n2.v.den().reduceSquares(e.ST)
+		if !had {
+			delete(e.ST.square, sid)
+		}
+		k.identities++
+		if num.Equal(den) {
+			k.hold("SYM-ALG", name+"#unit", P.Pos(fn.Pos()), "|FromTheta(θ,a)|² = 1 modulo sin²(θ/2) + cos²(θ/2) = 1, for every axis length")
+		} else {
+			k.violate("SYM-ALG", name+"#unit", P.Pos(fn.Pos()), "|FromTheta(θ,a)|² is "+RF{n: num, d: den}.Short(e.ST, 6)+", not 1: the result is not a unit quaternion for every axis")
+		}
+	}
+	if judged == 0 && okAll {
+		k.undecided("SYM-ALG", name, fn.Pos(), "no path builds the quaternion for a non-degenerate axis")
+	}
 }
